@@ -112,7 +112,8 @@ Next ==
        \/ "splice" \in Alpha /\ \E r \in RangeArgs(Len0(x)), p \in Paths, n \in 0..MaxRepl, src \in Srcs :
             /\ (p = "typed") = (src = "typed")
             /\ (Cfg.fixed \/ Len0(x) + n <= CapOf(x) + 1)
-            /\ Do([op |-> "splice_begin", v |-> x, sk |-> r.sk, sv |-> r.sv, ek |-> r.ek, ev |-> r.ev, path |-> p, n |-> n, src |-> src])
+            /\ \E d \in {0} \cup (IF "liar" \in Alpha /\ r.sk = "inc" /\ r.ek = "exc" THEN {-2, -1, 1, 2} ELSE {}) :
+                 Do([op |-> "splice_begin", v |-> x, sk |-> r.sk, sv |-> r.sv, ek |-> r.ek, ev |-> r.ev, path |-> p, n |-> n, src |-> src, delta |-> d])
        \/ "cap" \in Alpha /\ ~Cfg.fixed /\ \E p \in Paths :
             \/ \E n \in (0..(MaxCap - Len0(x))) \cup ((Cfg.maxu - 2)..Cfg.maxu), op \in {"reserve", "reserve_exact"} :
                  Do([op |-> op, v |-> x, n |-> n, path |-> p])
